@@ -23,3 +23,14 @@ GROUPS.append(dict(name='cat_invariant', cls='P', tu='C07_cat.c', entry='h_cat',
     trusted=['stub of opus_packet_parse_impl carrying exactly the clauses E2-E9 enforced on the real parser under C06 (writes through the interior pointers it is given)'],
     what='cat on an arbitrary invariant-satisfying repacketizer and arbitrary packet: accept/reject conditions, invariant, contents unchanged on rejection, array writes inside the 48-entry arrays'))
 META = {'cex': {'self': True, 'timeout': 1800}}
+
+_MSP = dict(cls='P', tu='C07_ms_pad.c', canary='real', unwind=1, timeout=1800, mem_gb=16,
+            replace_calls=['opus_repacketizer_cat_impl:verif_cat_impl', 'opus_repacketizer_out_range_impl:verif_out_range_impl', 'opus_packet_pad:verif_packet_pad'],
+            trusted=['parser stub carrying the C06 clauses (consumed length inside the packet, == len in standard framing)',
+                     'stubs of opus_repacketizer_cat_impl / opus_repacketizer_out_range_impl / opus_packet_pad: they assert what they are handed and assume the frame contract discharged in the cat / out_range groups; '
+                     'one clause is trusted (bounded evidence only, pad_unpad_* groups): the canonical re-encoding of one packet is not longer than that packet'])
+GROUPS.append(dict(_MSP, name='ms_unpad', entry='h_ms_unpad', expect_canaries=2, unwind_fn={'opus_multistream_packet_unpad': 49}, functions=['opus_multistream_packet_unpad'],
+    what='multistream unpad under its loop contract, any number of streams and any length: every stream parsed in its framing at the position where the previous one ended, re-emitted in place without padding '
+         'inside the caller\'s buffer and never after its old position; result = bytes written, in (0, len]'))
+GROUPS.append(dict(_MSP, name='ms_pad', entry='h_ms_pad', expect_canaries=2, functions=['opus_multistream_packet_pad'],
+    what='multistream pad under its loop contract: argument rules (nothing touched for len < 1, len >= new_len), the first n-1 streams skipped in self-delimited framing, the last stream handed to opus_packet_pad growing by exactly new_len - len'))
